@@ -19,7 +19,7 @@ import common
 from common import Case, Failure, f2x, x2f
 
 PID = 'C15'
-LEAN_TARGETS = ['Nitime.Props.C15', 'Nitime.Props.C15Opts', 'Nitime.Props.C19Rows']
+LEAN_TARGETS = ['Nitime.Props.C15', 'Nitime.Props.C15Opts', 'Nitime.Props.C19Rows', 'Nitime.Props.C15Obj']
 RULE = ('inputs: units s/ms/us x intervals {whole, decimal, known re-quantising (0.81327 s, 2.3 ms, 1.7 us ...), random} x '
         'non-zero t0 x 1-/2-/3-d data where the analyzer admits it; every TimeSeries-valued analyzer output + spectral/'
         'coherence/correlation/SNR/Granger/event-related array outputs; generated NIfTI volumes (single/multiple files, '
@@ -1025,6 +1025,9 @@ def cases(rng, tier, seed):
     # --- the event-related analyzer's data: rows that differ, dtypes, argument forms (through the C19 model)
     for sp in era_specs(rng, tier):
         out.append(era_case(sp))
+    # --- round 2: failure histories on one GrangerAnalyzer (object model), seeds that are views of the target
+    import c15_r2
+    out += c15_r2.r2_cases(rng, tier, seed)
     return out
 
 
@@ -1961,8 +1964,9 @@ JUDGES = {'fs': judge_fs, 'output': judge_output, 'concat': judge_concat, 'nifti
 
 def oracle(rng, tier, seed, focus, cases=None):
     fails, n = [], 0
+    import c15_r2
     for c in (cases or []):
-        j = JUDGES.get((c.meta or {}).get('op'))
+        j = JUDGES.get((c.meta or {}).get('op')) or c15_r2.R2_JUDGES.get((c.meta or {}).get('op'))
         if j:
             n += 1
             fails += j(c)
@@ -1994,9 +1998,12 @@ def oracle(rng, tier, seed, focus, cases=None):
     for i in range({'quick': 12, 'thorough': 120}[tier]):
         fails += judge_readseq_spec(gen_readseq_spec(rng, i, options=True))
         nseq += 1
+    # round 2: failure paths (L7) and aliasing (L8) on every analyzer class, concatenation and the reader
+    r2f, r2stats = c15_r2.r2_oracle(rng, tier, seed)
+    fails += r2f
     for f in fails:
         f.replay['key'] = f.key
-    return fails, {'judged_cases': n, 'read_histories': nseq, 'spectral_inputs': k, 'history_pairs': npairs, 'history_outputs': nout, 'failed': len(fails), 'focus': len(focus)}
+    return fails, {'r2': r2stats, 'judged_cases': n, 'read_histories': nseq, 'spectral_inputs': k, 'history_pairs': npairs, 'history_outputs': nout, 'failed': len(fails), 'focus': len(focus)}
 
 
 def replay(d):
@@ -2009,6 +2016,12 @@ def replay(d):
         fs = judge_readseq_spec(m['spec'])
     elif op == 'history':
         fs = history_experiments(m['spec'], m['name'], 10**6, common.make_rng(PID, 0, 'replay'))[0]
+    elif op in ('failure', 'alias', 'concat-alias', 'reader-failure'):
+        import c15_r2
+        fs = c15_r2.r2_replay(m)
+    elif op in ('objhist', 'seedrows'):
+        import c15_r2
+        fs = c15_r2.R2_JUDGES[op](c)
     else:
         fs = JUDGES[op](c)
     want = d.get('key')
